@@ -860,7 +860,12 @@ def _shapes(op, tier):
         return [[], [0], [1], [1, 1]]
     if op in ('OP_DIV_INTS', 'OP_MOD_INTS'):
         return [[], [1], [0, 1], [1, 1], [1, 1, 1]]
-    if op in ('OP_FALSE', 'OP_TRUE', 'OP_PUSH0', 'OP_PUSH1', 'OP_PUSH2', 'OP_RETURN', 'OP_DEPTH'):
+    if op == 'OP_SIZE':
+        # item lengths on both sides of 2^7 and 2^8 (the result is a *signed* integer)
+        return small + [[127], [128], [255], [256], [1, 200]]
+    if op == 'OP_DEPTH':
+        return [[], [1], [2, 1], [0] * 127, [0] * 128]
+    if op in ('OP_FALSE', 'OP_TRUE', 'OP_PUSH0', 'OP_PUSH1', 'OP_PUSH2', 'OP_RETURN'):
         return [[], [1], [2, 1]]
     return small
 
